@@ -35,7 +35,7 @@ def run(c, cd, v3exe, rng, n_hist, keyprefix=""):
                 oids = [ber.oid_content(gen.rarcs(rng, 6) + [rng.randrange(2 ** 32) for _y in range(rng.choice([0, 0, 3, 30, 200, 800]))])
                         for _x in range(rng.choice([0, 1, 1, 1]))]
                 rid = rng.randrange(2 ** 31)
-                boots, tm = rng.choice([0, 1, 2 ** 31 - 1, rng.randrange(2 ** 32)]), rng.choice([0, 255, rng.randrange(2 ** 32)])
+                boots, tm = rng.choice([0, 1, 2 ** 31 - 1, rng.randrange(2 ** 32)]), rng.choice([0, 255, 2 ** 31 - 1, rng.randrange(2 ** 32)])
                 oh = ",".join(o.hex() for o in oids) or "-"
                 if kind == "bulk":
                     spec = "bulk:%d:0:%d:%s" % (rid, 10, oh)
@@ -73,7 +73,8 @@ def run(c, cd, v3exe, rng, n_hist, keyprefix=""):
             else:
                 resp = ber.scoped_pdu(b"\x80\x00\x01", b"", ber.pdu(0xA2, 99, 0, 0, [ber.varbind(ber.enc_oid([1, 3, 6, 1]), ber.enc_value("int", 5))]))
                 salt = gen.rbytes(rng, 8, False)
-                boots, tm = rng.randrange(2 ** 31), rng.randrange(2 ** 31)
+                # the agent's clock over its whole legal range, ends included (snmpEngineBoots latches at 2^31-1)
+                boots, tm = (rng.choice([0, 1, 2 ** 31 - 2, 2 ** 31 - 1, rng.randrange(2 ** 31)]) for _q in range(2))
                 if alg == 1:
                     iv = bytes(a ^ b for a, b in zip(salt, key[8:16]))
                     pt = resp + bytes((-len(resp)) % 8)
